@@ -313,7 +313,7 @@ def main(argv=None):
                        'model': v['ob'].get('model'), 'replay': v['ob'].get('replay'),
                        'how': './check %s --replay %s' % (pid, path)}, f, indent=1)
         print('VIOLATION property=%s replay=%s' % (pid, path))
-        print('  what: %s  model=%s' % (v['fkey'], json.dumps(v['ob'].get('model'))[:400]))
+        print('  what: %s  model=%s' % (v['fkey'], json.dumps(v['ob'].get('model'))[:160]))
         rc = 1
     if inconclusive or harness_errors:
         rc = rc or 2
